@@ -430,6 +430,12 @@ def main(tier, seed, replay=None):
     if replay:
         rp = json.load(open(replay))
         cases = []
+        if "case" not in rp:
+            # a correspondence replay (no-failing-input-found): re-run its first recorded case
+            for ent in rp.get("no_longer_checks", []):
+                if isinstance(ent.get("case"), dict) and "src" in ent["case"]:
+                    rp["case"] = ent["case"]
+                    break
         if "case" in rp:
             c = rp["case"]
             cases = [{"id": 0, "mode": c["mode"], "cfg": T(c["cfg"]), "src": T(c["src"]), "stream": "replay",
@@ -474,7 +480,6 @@ def main(tier, seed, replay=None):
         corr, gfalse, ofail = code & 1, code & 2, code & 4
         if code & 256 and corr and not ofail:
             # status differs only because the model applied a library function the harness cannot observe
-            _, _, _, _, _ = 0, 0, 0, 0, 0
             incomparable += 1
             continue
         K = [sig for sig, bit, _ in QUIRKS if code & bit]
